@@ -156,6 +156,64 @@ def render(vals):
     return "\n".join(lines) + "\n"
 
 
+# ---- the vocabulary of the code: variants of the enums the models mirror ---------------------------------------
+SHAPE_FILES = ["src/commands.rs", "src/frame.rs", "src/session.rs", "src/bcodec/bvalue.rs"]
+SHAPE_ENUMS = ["TrackerCmd", "ExtractorCmd", "BroadCmd", "PeerCmd", "InitCmd", "UnchokeCmd", "NotInterestedCmd", "HaveCmd",
+               "BitfieldCmd", "RequestCmd", "PieceCmd", "Frame", "Status", "BValue"]
+
+
+def enums_of(path):
+    src = strip_comments(open(path).read())
+    out = {}
+    for m in re.finditer(r"\benum\s+(\w+)\s*\{", src):
+        i = m.end()
+        depth, j = 1, i
+        while depth:
+            c = src[j]
+            if c == "{":
+                depth += 1
+            elif c == "}":
+                depth -= 1
+            j += 1
+        body = src[i:j - 1]
+        vs, d, cur = [], 0, ""
+        for ch in body:
+            if ch in "{(":
+                d += 1
+            if ch in "})":
+                d -= 1
+            if ch == "," and d == 0:
+                vs.append(cur)
+                cur = ""
+            else:
+                cur += ch
+        vs.append(cur)
+        names = []
+        for v in vs:
+            v = re.sub(r"#\[[^\]]*\]", "", v).strip()
+            mm = re.match(r"(\w+)", v)
+            if mm:
+                names.append(mm.group(1))
+        out[m.group(1)] = names
+    return out
+
+
+def render_shape():
+    found = {}
+    for f in SHAPE_FILES:
+        p = os.path.join(REPO, f)
+        if not os.path.exists(p):
+            raise Fail("missing source file %s" % f)
+        found.update(enums_of(p))
+    lines = ["(* GENERATED by tools/gen_consts.py from /repo's working tree: the variants of the enums the models mirror. Do not edit. *)",
+             "From Coq Require Import String List.", "Import ListNotations.", "Open Scope string_scope.", ""]
+    for e in SHAPE_ENUMS:
+        if e not in found:
+            raise Fail("enum %s not found in the sources" % e)
+        lines.append("Definition shape_%s : list string := [%s]." % (e, "; ".join('"%s"' % v for v in found[e])))
+    return "\n".join(lines) + "\n"
+
+
 def main():
     out = sys.argv[1] if len(sys.argv) > 1 else "/verif/coq/Consts.v"
     try:
@@ -163,6 +221,15 @@ def main():
     except Fail as e:
         print("gen_consts: BROKEN TIE: %s" % e)
         sys.exit(2)
+    try:
+        shape = render_shape()
+    except Fail as e:
+        print("gen_consts: BROKEN TIE: %s" % e)
+        sys.exit(2)
+    shape_out = os.path.join(os.path.dirname(out), "Shape.v")
+    if not os.path.exists(shape_out) or open(shape_out).read() != shape:
+        with open(shape_out, "w") as f:
+            f.write(shape)
     text = render(vals)
     old = open(out).read() if os.path.exists(out) else None
     if old != text:
